@@ -43,7 +43,7 @@ def run(torchsde, sde, y0, ts, combo, dt, entropy=None, bm=None, record=False, a
         bm = rec
     fn = torchsde.sdeint_adjoint if adjoint else torchsde.sdeint
     opts = dict(combo.get("options") or {})
-    out = fn(sde, y0, ts, bm=bm, method=combo["method"], dt=dt, options=opts or None, **kw)
+    out = fn(sde, y0, ts, bm=bm, method="".join(list(combo["method"])), dt=dt, options=opts or None, **kw)
     return out, rec
 
 
